@@ -216,7 +216,7 @@ def main():
             bad = None
             steps = []
             for act, st in beh[1:]:
-                if act == "StepAny":
+                if act in ("StepAny", "Step"):
                     pos0 = _fun(prev["pos"], 0)
                     pos1 = _fun(st["pos"], 0)
                     r = [k for k in pos1 if pos1[k] != pos0[k]][0]
